@@ -96,10 +96,10 @@ CLAIMED = {
              "Known findings (open): on the Tantivy path the fetch limit depends on the cursor, so total_hits and the ranked list differ per page.",
         design_ref="DESIGN.md §4 C16"),
     "C09": dict(
-        technique="explicit-flow taint from the lossy sketch candidate set to the engines' hard filter + guard-edge dominance for the no_sketch escape hatch + fallback presence + per-arm table of propagated error sources in the per-candidate resolution step",
+        technique="type-graph coverage of lexical offset anchors by the WAL-growth adjuster; explicit-flow taint from the lossy sketch candidate set to the engines' hard filter + guard-edge dominance for the no_sketch escape hatch + fallback presence + per-arm table of propagated error sources in the per-candidate resolution step",
         text="Partial: decides that no lossy (thresholded, truncated) candidate set becomes the hard filter of the exact engines on the default path, that request.no_sketch really "
              "disables the stage, and that the Tantivy path keeps its three lex fallbacks with the same filter; the errors for which try_tantivy_search silently drops a candidate (propagated by resolve_chunk_context, "
-             "per role arm) are the reviewed set - in particular a failing parent-manifest lookup does not drop a chunk frame.",
+             "per role arm) are the reviewed set - in particular a failing parent-manifest lookup does not drop a chunk frame. The file offsets of every lexical manifest collection in the TOC are moved when the embedded WAL grows (needed for recall after reopen).",
         note="Not decided: recall itself (values). Known finding (open): the sketch set is a hard filter on the default path (design decision of the search path).",
         design_ref="DESIGN.md §4 C09"),
     "C26": dict(
